@@ -255,7 +255,10 @@ def str2num(x, signed=True, n_word=None, n_frac=None, base=10, return_sizes=Fals
             if '.' in x or (n_frac is not None and n_frac > 0):
                 val = float(x)
             else:
-                val = int(x)
+                try:
+                    val = int(x)
+                except ValueError:
+                    val = float(x)      # exponent notation without a decimal point ('1e3', '25E-1')
 
         elif base is not None:
             val = int(x, base)
